@@ -15,6 +15,17 @@
 
   `F` is loop fuel: any `F ≥ len(s1) + len(s2) + 2` works; too little fuel is an error (`none`),
   never a wrong answer.
+
+  Reading conventions (fourth audit):
+  * `List Rat` stands for a float64 numpy array and `Rat` for a Python/numpy float read as the exact
+    rational it denotes; integer-typed arrays (which numpy would truncate into) are outside the statements.
+  * Division is total (`x / 0 = 0`) on BOTH sides. Where the code divides by zero — an array with a repeated
+    spike time, both interval lengths 0 — numpy produces nan/inf and the two sides below agree on the
+    placeholder 0 instead. The theorems of `SourceLevel.lean` assume valid (strictly increasing) trains, for
+    which every divisor is proved positive (`C18.spike_scan_denominators_pos`, `isiVal_den_pos`, …).
+  * `some v` means "the Python routine returns v"; `none` means IndexError / failed assertion on inputs of the
+    shapes the hypotheses describe. For malformed shapes (arrays whose lengths do not fit) numpy may broadcast
+    or read uninitialised memory where the generated model says `none`; the hypotheses exclude those.
 -/
 import PySpikeVerif.Proofs.GenRefine.Isi
 import PySpikeVerif.Proofs.GenRefine.Coinc
